@@ -38,7 +38,7 @@ MIN_MONITOR = {"mon.value_oracle": 50, "mon.programs_executed": 30}
 SHARD_TIMEOUT = {"quick": 900, "thorough": 7200}
 
 N_PROGRAMS = {"quick": int(__import__("os").environ.get("C01_N", 1400)), "thorough": 40000}
-PER_PROGRAM_TIMEOUT = 60
+PER_PROGRAM_TIMEOUT = 120
 
 
 _Timeout = common.Timeout
@@ -255,6 +255,15 @@ def run_program(spec: dict[str, Any], col: common.Collector, *, variant: bool = 
                     # negative affine form as a truncating C division
                     col.histo("trusted_base_disagreements",
                               "loopy-C:subscript-floor-division-printed-truncating")
+                elif iok and isolated_output_agrees(spec, name, use_vs, bp, want_c,
+                                                    8.0 * spread[name]):
+                    # kernel is right (interpreter), binary is wrong, and the SAME store
+                    # instruction compiled without its unrelated sibling instructions gives
+                    # the right binary: loopy's result for one instruction depends on other
+                    # instructions (its inference caches key expressions by ==, and
+                    # np.float32(1.0) == np.float64(1.0))
+                    col.histo("trusted_base_disagreements",
+                              "loopy:result-depends-on-unrelated-instructions")
                 else:
                     key = classify_value(spec, name, got, want_c)
                     col.violation(key, f"output {name} differs from NumPy beyond tolerance"
@@ -265,6 +274,45 @@ def run_program(spec: dict[str, Any], col: common.Collector, *, variant: bool = 
                                    "diff": compare.describe_diff(got, want_c)})
         result["outputs"][use_vs] = rr.outputs
     return result
+
+
+def _store_text(bp: Any, name: str) -> list[str]:
+    out = []
+    for insn in bp.program.default_entrypoint.instructions:
+        for a in getattr(insn, "assignees", ()):
+            agg = getattr(a, "aggregate", a)
+            if getattr(agg, "name", None) == name:
+                out.append(f"{a!r} <- {getattr(insn, 'expression', None)!r} "
+                           f"within={sorted(insn.within_inames)}")
+    return out
+
+
+def isolated_output_agrees(spec: dict[str, Any], name: str, vset: int, bp: Any,
+                           want: np.ndarray, err: Any) -> bool:
+    """Positive evidence that a wrong binary is loopy's: the program restricted to output
+    *name* has, for that output, store instruction(s) with text identical (typed repr) to
+    the full kernel's, reads no temporaries, and ITS binary computes *want*."""
+    import pytato as pt
+    from vf.exec import ctarget
+    from vf.oracle import compare
+    try:
+        if len(spec["outputs"]) < 2:
+            return False
+        sub = dict(spec)
+        sub["outputs"] = {name: spec["outputs"][name]}
+        b2 = ps.PtBuild(sub, vset=vset)
+        dag2 = pt.transform.deduplicate(pt.make_dict_of_named_arrays(b2.outputs()))
+        bp2 = ctarget.generate(dag2)
+        t1, t2 = _store_text(bp, name), _store_text(bp2, name)
+        if not t1 or t1 != t2 or bp2.program.default_entrypoint.temporary_variables:
+            return False
+        cp2 = ctarget.compile_program(bp2)
+        rr = ctarget.run(cp2, bp2, b2.env(vset))
+        got = rr.outputs.get(name)
+        return bool(got is not None and got.shape == want.shape
+                    and compare.close_ulps(got, want, 16.0, err=err))
+    except Exception:  # noqa: BLE001
+        return False
 
 
 def floor_subscripts_repair(cp: Any, bp: Any, env: dict[str, Any], name: str,
@@ -429,17 +477,20 @@ def check_case(case: dict[str, Any], col: common.Collector) -> None:
             for k, v in d.items():
                 col.histo(t, k, v)
         if tmp.violations:
-            with common.time_limit(4 * PER_PROGRAM_TIMEOUT):
+            # (generous watchdog: minimisation decides the key, it must not be cut short
+            # by a loaded machine)
+            with common.time_limit(40 * PER_PROGRAM_TIMEOUT):
                 finalize_violations(spec, tmp, col)
     except common.Timeout:
         col.count("program_timeouts")
         col.histo("timeouts", spec.get("profile", "?"))
-        # violations found before the watchdog fired are still reported (unshrunk)
-        if not col.violations or True:
-            have = {v["key"].split(":unshrunk")[0] for v in col.violations}
-            for v in tmp.violations:
-                if not any(h_.startswith(v["key"]) for h_ in have):
-                    col.violation(v["key"] + ":unshrunk", v["what"], v["witness"])
+        # violations found before the watchdog fired are still reported, keyed by the
+        # signature of the whole (unminimised) program
+        have = {v["key"] for v in col.violations}
+        for v in tmp.violations:
+            if not any(h_.startswith(v["key"]) for h_ in have):
+                col.violation(f"{v['key']}:{ps.signature(spec)}",
+                              v["what"] + " (not minimised: watchdog)", v["witness"])
     col.case(h, ps.is_nontrivial(spec),
              {"profile": spec.get("profile"), "ops": ps.node_kinds(spec),
               "inputs": [(i["kind"], i["shape"], i["dtype"]) for i in spec["inputs"]],
